@@ -35,9 +35,9 @@ ASSUMPTIONS = [
     'OS-level faults during the final write() (ENOSPC, EIO) are not injected: '
     'the property lists serialisation failures and bad options; the writers '
     'are plain open(...).write(...)',
-    'dangling symlink with overwrite=False: refusal (DS9/CRTF use lexists) and '
-    'writing through the link (FITS, astropy writeto) are both accepted - no '
-    'existing bytes can be lost either way; the observed behaviour is recorded',
+    'a dangling symbolic link counts as a path that exists (the quantifier '
+    'names it as a destination state; "in every format"): without '
+    'overwrite=True it must be refused with OSError, link untouched',
     'when a destination exists AND a fault is injected any exception type is '
     'accepted (which check fires first is not specified)',
 ]
@@ -218,7 +218,9 @@ class Matrix(Relation):
         after = snapshot(path)
         listing_after = sorted(os.listdir(d))
         # does this fault make serialisation itself fail for this format?
-        exists = dest in ('file', 'symlink')
+        # (a dangling symbolic link is a path that exists: it is refused
+        # like the others, in every format)
+        exists = dest != 'absent'
         must_refuse = exists and not overwrite
         if must_refuse:
             ctx.check(err is not None, f'{tag} | existing destination '
@@ -232,14 +234,12 @@ class Matrix(Relation):
                       f'{before[:2]} -> {after[:2]}; files {listing_after}',
                       spec=cell)
         elif err is not None:
-            if dest == 'dangling' and not overwrite and isinstance(err, OSError):
-                ctx.count('dangling_refused')
             ctx.check(after == before and listing_after == listing_before,
                       f'{tag} | failed write ({type(err).__name__}) left the '
                       'destination changed or stray files behind',
                       f'{before[:2]} -> {after[:2]}; files {listing_before} '
                       f'-> {listing_after}; error {str(err)[:120]}', spec=cell)
-            if kind == 'none' and not (dest == 'dangling' and not overwrite):
+            if kind == 'none':
                 ctx.fail(f'{tag} | valid write fails',
                          f'{classify_exception(err)}: {str(err)[:200]}',
                          spec=cell)
@@ -250,8 +250,6 @@ class Matrix(Relation):
                 # not one for this format (e.g. unknown kwargs must raise)
                 ctx.fail(f'{tag} | write succeeds although {fault!r} was '
                          'injected', spec=cell)
-            if dest == 'dangling' and not overwrite:
-                ctx.count('dangling_written_through')
             ctx.check(os.path.exists(path), f'{tag} | nothing written',
                       spec=cell)
             if dest in ('symlink', 'dangling'):
